@@ -18,7 +18,7 @@ const sipspPath = "github.com/intuitivelabs/sipsp"
 
 // Prog is one loaded + type-checked + SSA-built build configuration of /repo.
 type Prog struct {
-	Cfg   string // "debug" (default tags) or "nodebug"
+	Cfg   string // "debug" (default tags), "nodebug" or "386" (default tags, GOARCH=386)
 	Dir   string
 	Fset  *token.FileSet
 	Pkg   *packages.Package
@@ -40,6 +40,10 @@ func loadProg(dir, cfg string) (*Prog, error) {
 	}
 	env := append(os.Environ(), "GOFLAGS=-mod=mod", "GOPROXY=off", "GOSUMDB=off",
 		"GOTOOLCHAIN=local", "GOWORK=off")
+	if cfg == "386" {
+		// 32-bit target: int is 32 bits wide for the type checker (constant overflow becomes a load error)
+		env = append(env, "GOARCH=386", "CGO_ENABLED=0")
+	}
 	conf := &packages.Config{
 		Mode:       packages.LoadAllSyntax,
 		Dir:        dir,
